@@ -72,7 +72,7 @@ Inductive tev :=
 | TE (qid : nat) (st : Z)              (* end_query entered (ares_metrics_record) *)
 | TS                                   (* server_increment_failures (server state callback) *)
 | TG                                   (* server_set_good *)
-| TP (rc : Z) (nodes v4 : bool)        (* ares_parse_into_addrinfo result; ai has nodes / an IPv4 node afterwards *)
+| TP (rc : Z) (nodes v4 v6 : bool)     (* ares_parse_into_addrinfo result; ai has nodes / an IPv4 / an IPv6 node afterwards *)
 | TR (rc : Z)                          (* ares_parse_ptr_reply_dnsrec *)
 | TK | TKE.                            (* ares_check_cleanup_conns entered / returned *)
 
@@ -815,7 +815,15 @@ with host_callback (fuel : nat) (o : obj) (r : result) {struct fuel} : M unit :=
   let! (ais, nodes, v4) :=
      (if zeqb st ARES_SUCCESS then
         let! e := pop in
-        match e with TP rc nodes v4 => ret (rc, nodes, v4) | _ => fail EDESYNC end
+        match e with
+        | TP rc nodes v4 v6 =>
+            (* ai_restrict_family (e1b8935): a single-family lookup keeps only nodes of that family
+               and treats an answer without any as no data *)
+            if zeqb rc ARES_SUCCESS && negb (Nat.eqb (h_family h) 0) then
+              let n' := if Nat.eqb (h_family h) 4 then v4 else v6 in
+              ret (if n' then ARES_SUCCESS else ARES_ENODATA, n', if Nat.eqb (h_family h) 4 then v4 else false)
+            else ret (rc, nodes, v4)
+        | _ => fail EDESYNC end
       else ret (ARES_SUCCESS, h_nodes h, h_v4 h)) in
   let! h := get_host o in
   store o (CHost (h_set_ai nodes v4 h)) ;;
@@ -1100,22 +1108,20 @@ Definition step (cf : config) (fuel : nat) (i : input) (tape : list tev) : M uni
   let! s := get in
   match st_tape s with [] => ret tt | _ => fail EDESYNC end.
 
-(* after ares_destroy the channel is gone: the harness ignores further channel operations *)
-Fixpoint run_from (cf : config) (fuel : nat) (h : list (input * list tev)) : M unit :=
+(* after ares_destroy the channel is gone: the harness ignores further channel operations.
+   Returns whether the history destroyed the channel. *)
+Fixpoint run_from (cf : config) (fuel : nat) (h : list (input * list tev)) : M bool :=
   match h with
-  | [] => ret tt
-  | (i, tape) :: rest =>
-      let! s := get in
-      if st_destroying s then ret tt
-      else step cf fuel i tape ;; run_from cf fuel rest
+  | [] => ret false
+  | (IDestroy, tape) :: _ => step cf fuel IDestroy tape ;; ret true
+  | (i, tape) :: rest => step cf fuel i tape ;; run_from cf fuel rest
   end.
 
 (* a history always ends with the destruction of the channel (the harness destroys a channel
    that is still alive: [final] is the tape of that ares_destroy) *)
 Definition run (cf : config) (fuel : nat) (h : list (input * list tev)) (final : list tev) : outcome (list event) :=
-  match (run_from cf fuel h ;;
-         let! s := get in
-         (if st_destroying s then ret tt else step cf fuel IDestroy final) ;;
+  match (let! destroyed := run_from cf fuel h in
+         (if destroyed then ret tt else step cf fuel IDestroy final) ;;
          emit EvEnd) init_state with
   | Ok (_, s) => Ok (rev (st_trace s))
   | Err e => Err e
